@@ -935,6 +935,167 @@ def readonly_retry_family(ctx, rounds):
                                       "intact": ctx.rng.choice([k, k, k - 1, k + 1, 0, n]), "concurrent": ctx.rng.randrange(2, 4)})
 
 
+# ----------------------------------------------------------------------------- (f) routing table vs the code
+
+def routing_cases(ctx):
+    """Instrumentation of real nodes: for every public whole-file operation of a mutable node -- does the
+    call enter `_do_serialized` (before any map update / retrieve / publish of that node), and is
+    `_do_serialized` entered again on the node while the body runs (one operation at a time, so any such
+    call comes from inside the body)?  For every directory operation -- which public operations of the
+    backing node it reaches, in order.  The names are taken from the driver, so an operation missing
+    from the harness shows up as a disagreement.  Includes the read-only retry path of
+    download_best_version (first survey finds too few good shares)."""
+    import grid
+    from twisted.internet import defer
+    from allmydata.immutable import upload
+    from allmydata.mutable.publish import MutableData, Publish
+    from allmydata.mutable.servermap import ServermapUpdater
+    from allmydata.mutable.retrieve import Retrieve
+    from allmydata.mutable.common import MODE_WRITE
+    mo = ctx.model(["route names"])
+    if mo is None or " | " not in mo[0]:
+        return
+    node_ops, dir_ops = [x.split() for x in mo[0].split(" | ")]
+    PUBLIC = ["download_best_version", "overwrite", "upload", "modify", "get_servermap"]
+    patched = []
+    lines, impls, cases = [], [], []
+    with grid.Runtime(seed=17, policy="fifo") as rt:
+        g = grid.Grid(grid.fresh_dir("c13r"), rt, num_servers=10, k=3, happy=1, n=10)
+        try:
+            c = g.clients[0]
+            state = {"node": None, "depth": 0, "events": []}
+
+            def instrument(node):
+                state["node"] = node
+                orig_ser = node._do_serialized
+
+                def do_serialized(cb, *a, **k):
+                    state["events"].append("ser-inner" if state["depth"] else "ser")
+
+                    def cb2(*a2, **k2):
+                        state["depth"] += 1
+                        d = defer.maybeDeferred(cb, *a2, **k2)
+
+                        def done(r):
+                            state["depth"] -= 1
+                            return r
+                        d.addBoth(done)
+                        return d
+                    return orig_ser(cb2, *a, **k)
+                node._do_serialized = do_serialized
+                for name in PUBLIC:
+                    orig = getattr(node, name)
+
+                    def wrapped(*a, _orig=orig, _name=name, **k):
+                        state["events"].append("call:" + _name)
+                        return _orig(*a, **k)
+                    setattr(node, name, wrapped)
+
+            def patch(cls, name):
+                orig = getattr(cls, name)
+
+                def wrapped(self, *a, **k):
+                    if getattr(self, "_node", None) is state["node"]:
+                        state["events"].append("work")
+                    return orig(self, *a, **k)
+                setattr(cls, name, wrapped)
+                patched.append((cls, name, orig))
+            patch(ServermapUpdater, "update")
+            patch(Publish, "publish")
+            patch(Publish, "update")
+            patch(Retrieve, "download")
+
+            def observe(thunk):
+                del state["events"][:]
+                try:
+                    rt.wait(thunk())
+                except grid.Stuck:
+                    state["events"].append("hung")
+                except Exception:
+                    pass
+                return list(state["events"])
+
+            # --- node operations
+            mn0 = rt.wait(c.create_mutable_file(MutableData(b"routing")))
+            mn = c.create_node_from_uri(mn0.get_uri())
+            instrument(mn)
+            smap = rt.wait(mn.get_servermap(MODE_WRITE))
+            thunks = {"download_best_version": lambda: mn.download_best_version(),
+                      "overwrite": lambda: mn.overwrite(MutableData(b"routing 2")),
+                      "upload": lambda: mn.upload(MutableData(b"routing 3"), smap),
+                      "modify": lambda: mn.modify(lambda old, sm, first: old + b"!"),
+                      "get_servermap": lambda: mn.get_servermap(MODE_WRITE)}
+            observed = {}
+            for name in node_ops:
+                if name not in thunks:
+                    observed[name] = (None, None)
+                    continue
+                ev = observe(thunks[name])
+                core = [e for e in ev if not e.startswith("call:")]
+                observed[name] = (bool(core) and core[0] == "ser", "ser-inner" in ev or "hung" in ev)
+            # the read-only retry path of download_best_version
+            ro = c.create_node_from_uri(mn0.get_readonly_uri())
+            order = [s_.get_serverid() for s_ in g.broker.get_servers_for_psi(mn0.get_storage_index())]
+            shares = sorted(g.share_files(mn0.get_storage_index()), key=lambda t: order.index(g.serverid(t[0])))
+            import props.c10 as c10
+            for (_srv, _sh, path) in shares[:len(shares) - 3]:
+                raw = open(path, "rb").read()
+                (a, b) = c10.share_fields(raw[c10.DATA_OFFSET:])["share_data"]
+                pos = c10.DATA_OFFSET + a
+                with open(path, "wb") as fh:
+                    fh.write(raw[:pos] + bytes([raw[pos] ^ 0xFF]) + raw[pos + 1:])
+            instrument(ro)
+            ev = observe(lambda: ro.download_best_version())
+            core = [e for e in ev if not e.startswith("call:")]
+            ro_obs = (bool(core) and core[0] == "ser", "ser-inner" in ev or "hung" in ev)
+            ctx.count("routing:ro-retry-mapupdates", sum(1 for e in ev if e == "work"))
+            (s0, r0) = observed.get("download_best_version", (None, None))
+            observed["download_best_version"] = (s0 and ro_obs[0], bool(r0) or ro_obs[1])
+            for name in node_ops:
+                (ser, inner) = observed[name]
+                lines.append("route node " + name)
+                impls.append("not-driven" if ser is None else "serialized=%s reenters=%s" % (str(bool(ser)).lower(), str(bool(inner)).lower()))
+                cases.append({"node_op": name})
+                ctx.case("route node " + name)
+
+            # --- directory operations
+            dn0 = rt.wait(c.create_dirnode())
+            dn = c.create_node_from_uri(dn0.get_uri())
+            rt.wait(dn.set_uri("c", LIT, LIT))
+            litnode = c.create_node_from_uri(LIT)
+            instrument(dn._node)
+            dthunks = {"list": lambda: dn.list(), "has_child": lambda: dn.has_child("c"), "get": lambda: dn.get("c"),
+                       "get_child_and_metadata": lambda: dn.get_child_and_metadata("c"),
+                       "get_metadata_for": lambda: dn.get_metadata_for("c"),
+                       "set_metadata_for": lambda: dn.set_metadata_for("c", {"k": "v"}),
+                       "set_uri": lambda: dn.set_uri("n1", LIT, LIT), "set_children": lambda: dn.set_children({"n2": (LIT, LIT)}),
+                       "set_node": lambda: dn.set_node("n3", litnode), "set_nodes": lambda: dn.set_nodes({"n4": (litnode, None)}),
+                       "add_file": lambda: dn.add_file("f", upload.Data(b"x" * 30, convergence=b"c" * 16)),
+                       "delete": lambda: dn.delete("n1"), "create_subdirectory": lambda: dn.create_subdirectory("sub"),
+                       "move_child_to": lambda: dn.move_child_to("c", dn, "c-moved")}
+            for name in dir_ops:
+                if name not in dthunks:
+                    impl = "not-driven"
+                else:
+                    ev = observe(dthunks[name])
+                    calls = [e[5:] for e in ev if e.startswith("call:")]
+                    # every piece of work on the backing node has to lie behind a serialized entry
+                    if "work" in ev and ("ser" not in ev or ev.index("work") < ev.index("ser")):
+                        calls.append("UNSERIALIZED-WORK")
+                    if "ser-inner" in ev or "hung" in ev:
+                        calls.append("REENTERS")
+                    impl = ",".join(calls)
+                lines.append("route dir " + name)
+                impls.append(impl)
+                cases.append({"dir_op": name})
+                ctx.case("route dir " + name)
+        finally:
+            for (cls, name, orig) in patched:
+                setattr(cls, name, orig)
+            g.close()
+    ctx.compare("routing table: which operations enter the node's serializer, which re-enter it", cases, impls, ctx.model(lines))
+
+
 def run(ctx):
     import common
     common.setup_impl_path()
@@ -951,6 +1112,7 @@ def run(ctx):
         ctx.compare("replayed schedule", [{"ops": ops}], [text], ctx.model(["ser " + " ".join(ops)]))
         return
     readonly_retry_corpus(ctx)
+    routing_cases(ctx)
     n = ctx.budget(400, 20000)
     corpus = [["q", "i:0", "q", "f:1:o", "f:0:o", "f:2:f", "t", "f:0:f"], ["q", "q", "i:0", "f:0:o", "t", "q"],
               ["q", "r:0", "q", "f:0:o", "t", "f:1:o", "t"], ["q", "u:0", "q", "f:1:f", "t", "qo"]]
